@@ -1,1 +1,38 @@
-From Arche Require Import Model.Base.
+(** C10 - Illegal operations panic, and single-entity failures change nothing.
+    Statements only; proofs in Proofs/Atomic.v. *)
+From Arche Require Import Model.Base Model.Pool Model.World Model.Ops Proofs.Atomic.
+
+(** Whatever the operation and the state: a panic returns the very world it was given
+    (every observable as before, the world fully usable) and emits no event.  (Batch
+    operations that fail after they have started moving tables are not [Panic] but
+    [Undef] in the model: the property only speaks about single-entity operations.) *)
+Theorem C10_panic_atomic : forall w o w' evs, step w o = (w', Panic, evs) -> w' = w /\ evs = [].
+Proof. exact panic_atomic. Qed.
+
+(** Removed or recycled entities are refused by every single-entity operation. *)
+Theorem C10_dead_entity : forall w e,
+  chk_alive w e <> Some true ->
+  (forall add rem, step w (OExchange e add rem) = (w, Panic, [])) /\
+  step w (ORemoveEntity e) = (w, Panic, []) /\ (forall id, step w (OGet e id) = (w, Panic, [])) /\
+  (forall id v, step w (OSet e id v) = (w, Panic, [])) /\ (forall id t, step w (ORelSet e id t) = (w, Panic, [])) /\
+  step w (OMask e) = (w, Panic, []).
+Proof. exact illegal_dead_entity. Qed.
+
+(** A dead relation target is refused through every entry point that takes one. *)
+Theorem C10_dead_target : forall w e rid t,
+  target_ok w t = false ->
+  step w (ORelSet e rid t) = (w, Panic, []) /\
+  (forall add rem, step w (ORelExchange e add rem rid t) = (w, Panic, [])) /\
+  (forall b, b_rel b <> None -> step w (OBNew b (Some t)) = (w, Panic, [])) /\
+  (forall a q, step w (OBatchSetRel q a rid t) = (w, Panic, [])).
+Proof. exact illegal_dead_target. Qed.
+
+(** Adding a present component, removing an absent one, duplicate ids. *)
+Theorem C10_component_args : forall w e add rem,
+  is_locked w = false -> (add <> [] \/ rem <> []) ->
+  (forall tid row t nd, ent_table w e = Some (tid, row, t, nd) -> exchange_mask (n_mask nd) add rem = None) ->
+  step w (OExchange e add rem) = (w, Panic, []).
+Proof. exact illegal_component_args. Qed.
+
+Print Assumptions C10_panic_atomic.
+Print Assumptions C10_dead_target.
